@@ -83,7 +83,7 @@ class C06(CheckBase):
             spt = 10 if enc == 'fm' else rng.choice([16, 18])
             cls = rng.weighted([(4, 'G'), (6, 'S')])
             return {'level': 'track', 'enc': enc, 'spt': spt, 'cyl': rng.below(80), 'head': rng.below(2), 'seed': rng.below(1 << 30),
-                    'class': cls, 'ntracks': 12, 'damage_seed': rng.below(1 << 30)}
+                    'class': cls, 'ntracks': 12, 'damage_seed': rng.below(1 << 30), 'altmarks': rng.chance(0.3)}
         fc = fluxwork.gen_fluxcase(rng, small=True, sides=rng.weighted([(4, 1), (1, 2)]))
         mode = rng.weighted([(3, 'one-track'), (2, 'few-tracks'), (4, 'radial')])
         cls = rng.weighted([(3, 'G'), (7, 'S')])
@@ -113,8 +113,8 @@ class C06(CheckBase):
             else:
                 self.run_image(case, ctx, out)
         except WorkerDied as wd:
-            out.violate('C06.crash', 'library code crashed while decoding damaged flux (exit %r): %s' % (wd.code, wd.stderr[-300:].decode('latin-1')),
-                        {'level': case['level'], 'what': 'crash'}, case)
+            out.violate('C06.crash', 'library code crashed or hung while decoding damaged flux (exit %r): %s' % (wd.code, wd.stderr[-300:].decode('latin-1')),
+                        {'level': case['level'], 'what': 'crash' if wd.code != 'timeout' else 'hang'}, case)
         return out
 
     def run_tracks(self, case, ctx, out):
@@ -126,15 +126,21 @@ class C06(CheckBase):
         secs = []
         for r in order:
             payload = bytes([cyl, head, r]) + rng.bytes(253)
-            secs.append((r, payload))
+            # some sectors are legally recorded with another data mark (deleted data F8, or F9/FA):
+            # the decoders yield data sectors only, so these must never be returned
+            mark = 0xFB if not case.get('altmarks') or rng.chance(0.75) else rng.choice([0xF8, 0xF8, 0xF9, 0xFA])
+            secs.append((r, payload, mark))
         cells, regions = flux.encode_track(enc, cyl, head, secs, params)
-        recorded = {r: p for r, p in secs}
-        by_payload = {p: r for r, p in secs}
+        recorded = {r: p for r, p, m in secs if m == 0xFB}
+        by_payload = {p: r for r, p, m in secs}
+        nonfb = sum(1 for r, p, m in secs if m != 0xFB)
+        if nonfb:
+            out.probe('tracks-with-non-FB-data-marks')
         drng = Rng.derive(case['damage_seed'], 'damage')
         variants = case.get('variants')
         n = len(variants) if variants is not None else case['ntracks']
         for i in range(n):
-            ops = variants[i] if variants is not None else gen_damage(drng, spt, case['class'])
+            ops = variants[i] if variants is not None else ([] if (i == 0 and case.get('altmarks')) else gen_damage(drng, spt, case['class']))
             dcells = fluxwork.apply_damage(cells, regions, ops)
             data, first, stride = flux.simdisk_bitstream(enc, dcells)
             j = ctx.e2.decode(enc, data, first, stride)
@@ -163,6 +169,10 @@ class C06(CheckBase):
                 if addr in seen:
                     out.probe('duplicate-address-yielded')
                 seen.add(addr)
+                if (s['c'], s['h']) == (cyl, head) and s['data'] in by_payload and by_payload[s['data']] == s['r'] and s['r'] not in recorded:
+                    verdict = 'non-data-record-yielded'
+                    out.violate('C06.e', '%s: sector %s was recorded with a deleted/other data mark but was yielded as a data sector' % (what, addr), dict(desc, what='non-data-mark'), atom)
+                    continue
                 if (s['c'], s['h']) != (cyl, head) or s['r'] not in recorded:
                     if case['class'] == 'G':
                         verdict = 'bad-address'
